@@ -73,6 +73,12 @@ Definition cfg_mixed : wcfg := mkCfg [82]%N KMixed [any_ns_kw] [119]%N false (@n
 Definition cfg_choice : wcfg := mkCfg [82]%N KChoice [any_ns_kw] [97;110;121]%N false [[107]%N].
 Definition cfg_list_amap : wcfg := mkCfg [82]%N KList [any_ns_kw] [119]%N true (@nil str).
 
+Definition cls_nl : wcfg := mkCfg [110;108]%N KList [any_ns_kw] [119]%N false (@nil str).
+Definition cls_nm : wcfg := mkCfg [110;109]%N KMixed [any_ns_kw] [119]%N false (@nil str).
+Definition cls_ns : wcfg := mkCfg [110;115]%N KSingle [any_ns_kw] [119]%N false (@nil str).
+Definition cls_na : wcfg := mkCfg [110;97]%N KList [any_ns_kw] [119]%N true (@nil str).
+(* holder classes the context finds by element qname *)
+Definition reg_w : list wcfg := [cls_nl; cls_nm; cls_ns; cls_na].
 
 Definition expect (t : itree) : option itree := Some (norm_ws (canon [] t)).
 Definition expect_root (t : itree) : option itree := Some (norm_ws_root (canon [] t)).
@@ -120,9 +126,9 @@ Proof. exists w_space. split; [vm_compute; reflexivity | vm_compute; discriminat
 Lemma holder_xsi_primitive_refuted :
   exists t, g_wf [] t && guard_any [] t && guard_write [] t = true /\ g_first_level [] t = false /\
             roundtrip_spec full_oracle [] [] t = expect t /\
-            holder_roundtrip cfg_single full_oracle t <> expect_root t /\
-            holder_roundtrip cfg_list full_oracle t <> expect_root t /\
-            holder_roundtrip cfg_mixed full_oracle t <> expect_root t.
+            holder_roundtrip reg_w cfg_single full_oracle t <> expect_root t /\
+            holder_roundtrip reg_w cfg_list full_oracle t <> expect_root t /\
+            holder_roundtrip reg_w cfg_mixed full_oracle t <> expect_root t.
 Proof.
   exists w_prim.
   split; [vm_compute; reflexivity|]. split; [vm_compute; reflexivity|]. split; [vm_compute; reflexivity|].
@@ -131,20 +137,20 @@ Qed.
 
 Lemma holder_xsi_primitive_choice_refuted :
   exists t, g_wf [] t && guard_any [] t && guard_write [] t = true /\
-            holder_roundtrip cfg_choice full_oracle t <> expect_root t.
+            holder_roundtrip reg_w cfg_choice full_oracle t <> expect_root t.
 Proof. exists w_prim_one. split; [vm_compute; reflexivity | vm_compute; discriminate]. Qed.
 
 Lemma holder_xsi_primitive_child_refuted :
   exists t, g_wf [] t && guard_any [] t && guard_write [] t = true /\
             roundtrip_spec full_oracle [] [] t = expect t /\
-            wild_parse cfg_list (pump full_oracle [] [] t) = Err EContext.
+            wild_parse reg_w cfg_list (pump full_oracle [] [] t) = Err EContext.
 Proof. exists w_prim_child. split; [vm_compute; reflexivity | split; vm_compute; reflexivity]. Qed.
 
 (* ... and there the TreeParser and the wildcard field do not build the same tree *)
 Lemma tree_parser_ne_wildcard_refuted :
   exists rd k v w,
     tree_parse (pump full_oracle (rd ++ []) [O] k) = Some v /\
-    wild_parse cfg_single (pump full_oracle [] [] (INode [82] [] rd [] [k] [])) = Ok (mkRobj [] (WOne w)) /\
+    wild_parse reg_w cfg_single (pump full_oracle [] [] (INode [82] [] rd [] [k] [])) = Ok (mkRobj [] (WOne w)) /\
     v <> w.
 Proof.
   exists (i_nsd w_prim_one), (hd w_cut (i_kids w_prim_one)).
@@ -156,3 +162,44 @@ Example guards_nonvacuous :
   g_wf [] w_ok && guard_any [] w_ok && guard_write [] w_ok = true /\
   roundtrip_written full_oracle [] [] w_ok = expect w_ok.
 Proof. split; vm_compute; reflexivity. Qed.
+
+(* ---- holder classes found by qname below another holder -------------------------------------- *)
+(* <R>see <nl>cf. <c/></nl> for details</R> *)
+Definition w_typed_tail : itree :=
+  (INode [82]%N (@nil (str * str)) (@nil (option str * str)) [115;101;101;32]%N [(INode [110;108]%N (@nil (str * str)) (@nil (option str * str)) [99;102;46;32]%N [(INode [99]%N (@nil (str * str)) (@nil (option str * str)) (@nil N) (@nil itree) (@nil N))] [32;102;111;114;32;100;101;116;97;105;108;115]%N)] (@nil N)).
+
+(* <R><ns>t<a/></ns>u</R> *)
+Definition w_single_tail : itree :=
+  (INode [82]%N (@nil (str * str)) (@nil (option str * str)) (@nil N) [(INode [110;115]%N (@nil (str * str)) (@nil (option str * str)) [116]%N [(INode [97]%N (@nil (str * str)) (@nil (option str * str)) (@nil N) (@nil itree) (@nil N))] [117]%N)] (@nil N)).
+
+(* <R>see <nl>cf. <c/></nl> for details<nm>x<nl/><na k="1"><b/>w</na></nm>z<ns>t<a/>v</ns>u</R> *)
+Definition w_nested_ok : itree :=
+  (INode [82]%N (@nil (str * str)) (@nil (option str * str)) [115;101;101;32]%N [(INode [110;108]%N (@nil (str * str)) (@nil (option str * str)) [99;102;46;32]%N [(INode [99]%N (@nil (str * str)) (@nil (option str * str)) (@nil N) (@nil itree) (@nil N))] [32;102;111;114;32;100;101;116;97;105;108;115]%N); (INode [110;109]%N (@nil (str * str)) (@nil (option str * str)) [120]%N [(INode [110;108]%N (@nil (str * str)) (@nil (option str * str)) (@nil N) (@nil itree) (@nil N)); (INode [110;97]%N [([107]%N, [49]%N)] (@nil (option str * str)) (@nil N) [(INode [98]%N (@nil (str * str)) (@nil (option str * str)) (@nil N) (@nil itree) [119]%N)] (@nil N))] [122]%N); (INode [110;115]%N (@nil (str * str)) (@nil (option str * str)) [116]%N [(INode [97]%N (@nil (str * str)) (@nil (option str * str)) (@nil N) (@nil itree) [118]%N)] [117]%N)] (@nil N)).
+
+(* a typed child followed by text inside a non-mixed holder: find_children(None) *)
+Lemma typed_child_tail_refuted :
+  exists t, g_wf [] t && guard_any [] t && guard_write [] t = true /\
+            holder_written reg_w cfg_mixed full_oracle t = Some (canon [] t) /\
+            wild_parse reg_w cfg_list (pump full_oracle [] [] t) = Err ETypeError /\
+            wild_parse reg_w cfg_single (pump full_oracle [] [] t) = Err ETypeError.
+Proof.
+  exists w_typed_tail. split; [vm_compute; reflexivity|]. split; [vm_compute; reflexivity|].
+  split; vm_compute; reflexivity.
+Qed.
+
+(* the tail of a single-wildcard holder is stored in its qname-less wrapper and
+   written before the end tag when the last child has no tail of its own *)
+Lemma single_holder_tail_refuted :
+  exists t, g_wf [] t && guard_any [] t && guard_write [] t = true /\
+            holder_roundtrip reg_w cfg_mixed full_oracle t <> Some (canon [] t) /\
+            holder_written reg_w cfg_mixed full_oracle t <> Some (canon [] t).
+Proof.
+  exists w_single_tail. split; [vm_compute; reflexivity|]. split; vm_compute; discriminate.
+Qed.
+
+(* three nested holder classes (list, mixed with nested list and Attributes-map class,
+   single with text, a child tail and its own tail); read with the faithful writer: two
+   data events in a row mean "text, then tail of the element being written" *)
+Example nested_holders_computed :
+  holder_written reg_w cfg_mixed full_oracle w_nested_ok = Some (canon [] w_nested_ok).
+Proof. vm_compute; reflexivity. Qed.
